@@ -311,7 +311,8 @@ func realTag(key, msg []byte) []byte {
 
 type bufGen struct {
 	*hx.Gen
-	lines []string
+	lines  []string
+	spread []string // expensive ops, emitted evenly spaced so that the model's worker processes share them
 }
 
 func (b *bufGen) Emit(format string, a ...any) { b.lines = append(b.lines, fmt.Sprintf(format, a...)) }
@@ -322,7 +323,12 @@ func gen(gg *hx.Gen) {
 	// contents rewritten in place; some calls repeat earlier contents, some run on fresh arrays (fresh=1)
 	defer func() {
 		r := g.R
+		every, next := len(g.lines)/(len(g.spread)+1)+1, 0
 		for i := 0; i < len(g.lines); {
+			if i >= (next+1)*every && next < len(g.spread) {
+				gg.Emit("%s", g.spread[next])
+				next++
+			}
 			if r.Chance(1, 12) && i+2 <= len(g.lines) {
 				k := min(r.Range(2, 5), len(g.lines)-i)
 				sub := append([]string(nil), g.lines[i:i+k]...)
@@ -343,11 +349,47 @@ func gen(gg *hx.Gen) {
 			gg.Emit("%s", g.lines[i])
 			i++
 		}
+		for ; next < len(g.spread); next++ {
+			gg.Emit("%s", g.spread[next])
+		}
 	}()
 	n := g.Count(11000, 150000)
 	r := g.R
 	g.Emit("api")
 	pairSweepC04(g)
+	// width-narrowable length compares of the assembly (`CMPQ len, $16`): lengths whose whole-block part is an exact
+	// multiple of 2^8 / 2^16 (c + k·2^8, c + k·2^16, c = 0..17); 2^32 is out of reach (4 GiB message).
+	// One-shot Sum, Verify and a single large Write (plus a short second Write) inside a history.
+	bigBases := []int{1 << 16, 1 << 17, 3 << 16}
+	if g.Thorough() {
+		bigBases = append(bigBases, 1<<18, 1<<20)
+	}
+	for _, base := range bigBases {
+		for _, j := range []int{0, r.Range(1, 15), 16, 17} {
+			L := base + j
+			key, msg := genKey(g), genMsg(g, L)
+			switch r.Intn(3) {
+			case 0:
+				g.spread = append(g.spread, fmt.Sprintf("sum key=%s msg=%s", hx.Hex(key), hx.Hex(msg)))
+			case 1:
+				tag := realTag(key, msg)
+				if r.Bool() {
+					tag[r.Intn(16)] ^= 1
+				}
+				g.spread = append(g.spread, fmt.Sprintf("verify key=%s msg=%s tag=%s", hx.Hex(key), hx.Hex(msg), hx.Hex(tag)))
+			default:
+				g.spread = append(g.spread, fmt.Sprintf("hist key=%s msg=%s ops=w:%d,w:%d,s,v:%s", hx.Hex(key), hx.Hex(msg), base, j, hx.Hex(realTag(key, msg))))
+			}
+			g.Stat(fmt.Sprintf("len.k*2^16+0..17(base=%d)", base))
+		}
+	}
+	for k := 1; k <= 12; k++ {
+		L := 256*k + hx.Pick(r, []int{0, 1, 15, 16, 17})
+		key, msg := genKey(g), genMsg(g, L)
+		g.Emit("sum key=%s msg=%s", hx.Hex(key), hx.Hex(msg))
+		g.Emit("hist key=%s msg=%s ops=w:%d,w:%d,s", hx.Hex(key), hx.Hex(msg), 256*k, L-256*k)
+		g.Stat("len.k*2^8+0..17")
+	}
 	for i := 0; i < n; i++ {
 		key := genKey(g)
 		L := genLen(g)
